@@ -369,3 +369,110 @@ pub fn build_chain(image: &AssetData, step: usize, max_t: u64) -> Result<Chain, 
         ended,
     })
 }
+
+// ------------------------------------------------------------------ ideal waveform + LD-BYTES
+
+/// Edge times (absolute T) of the ideal waveform of `blocks`, first edge at `start`.
+/// Every block: pilot (8063 pulses for flag 00, else 3223) of 2168 T, sync 667 + 735, two equal
+/// pulses per bit MSB first, then a pause of one second.
+pub fn ideal_edges(blocks: &[Vec<u8>], start: u64) -> Vec<u64> {
+    let mut t = start;
+    let mut e = vec![t];
+    for b in blocks {
+        if b.is_empty() {
+            continue;
+        }
+        let n = if b[0] == 0 { 8063 } else { 3223 };
+        for _ in 0..n {
+            t += PILOT;
+            e.push(t);
+        }
+        t += SYNC1;
+        e.push(t);
+        t += SYNC2;
+        e.push(t);
+        for byte in b {
+            for bit in (0..8).rev() {
+                let d = if byte & (1 << bit) != 0 { ONE } else { ZERO };
+                t += d;
+                e.push(t);
+                t += d;
+                e.push(t);
+            }
+        }
+        t += SECOND;
+        e.push(t);
+    }
+    e
+}
+
+/// EAR level at time t for an edge list (level toggles at every edge, low before the first)
+pub fn level_at(edges: &[u64], t: u64) -> bool {
+    let n = edges.partition_point(|e| *e <= t);
+    n % 2 == 1
+}
+
+#[derive(Clone, Debug, PartialEq, Eq)]
+pub struct LdRequest {
+    /// expected flag byte (A at entry)
+    pub a: u8,
+    /// carry at entry: true = LOAD, false = VERIFY
+    pub load: bool,
+    pub ix: u16,
+    pub de: u16,
+}
+
+#[derive(Clone, Debug, PartialEq, Eq)]
+pub struct LdResult {
+    pub ix: u16,
+    pub de: u16,
+    pub carry: bool,
+    /// RAM writes in order (ROM addresses are dropped by the caller's memory model)
+    pub writes: Vec<(u16, u8)>,
+}
+
+/// RefLdBytes: the control flow of the ROM routine LD-BYTES (0556h) once leader and sync have been
+/// found, transcribed from the ROM disassembly: every byte read is xor-ed into the parity; then, if
+/// DE is 0, the routine ends with carry = (parity == 0); otherwise the byte is the flag to compare
+/// (first byte only, unless D was FFh at entry, which makes the Z' flag skip the flag test), or is
+/// stored (LOAD) / compared (VERIFY) at IX. Running out of tape gives carry reset.
+pub fn ref_ld_bytes(block: &[u8], req: &LdRequest, mem: &dyn Fn(u16) -> u8) -> LdResult {
+    let mut ix = req.ix;
+    let mut de = req.de;
+    let mut parity = 0u8;
+    // INC D at entry: Z set iff D == FF -> flag test skipped
+    let mut flag_done = (req.de >> 8) as u8 == 0xFF;
+    let mut writes: Vec<(u16, u8)> = Vec::new();
+    let read = |a: u16, writes: &Vec<(u16, u8)>| -> u8 {
+        for (x, v) in writes.iter().rev() {
+            if *x == a {
+                return *v;
+            }
+        }
+        mem(a)
+    };
+    for &byte in block {
+        parity ^= byte;
+        if de == 0 {
+            return LdResult { ix, de, carry: parity == 0, writes };
+        }
+        if !flag_done {
+            if req.a != byte {
+                return LdResult { ix, de, carry: false, writes };
+            }
+            flag_done = true;
+            continue;
+        }
+        if req.load {
+            if ix >= 0x4000 {
+                writes.push((ix, byte));
+            }
+        } else if read(ix, &writes) != byte {
+            return LdResult { ix, de, carry: false, writes };
+        }
+        ix = ix.wrapping_add(1);
+        de = de.wrapping_sub(1);
+    }
+    // tape ran out of bytes: edge time-out
+    LdResult { ix, de, carry: false, writes }
+}
